@@ -5,6 +5,7 @@
 -/
 import FlacModel.Model.Encode
 import FlacModel.Proofs.Machine
+import FlacModel.Proofs.Dot
 
 namespace Flac.C01
 open Flac Gen
@@ -18,15 +19,17 @@ theorem stereo_leftside_inverse (p : Profile) (l r : Int) (hl : fitsS 31 l = tru
   constructor
   · simp only [encSide, subS, bind, Except.bind, pure, Except.pure]
     rw [resS_eq p 32 _ (l - r) (l - r) rfl (by rw [fitsS32_iff]; omega)]
-  · simp only [decLeftSide, subS, bind, Except.bind, pure, Except.pure]
-    rw [resS_eq p 32 _ (l - (l - r)) r (by omega) (by rw [fitsS32_iff]; omega)]
+  · have e : l - (l - r) = r := by omega
+    simp only [decLeftSide, bind, Except.bind, pure, Except.pure, e]
+    rw [wrapS32_of_fits r (by rw [fitsS32_iff]; omega)]
 
 /-- side/right: the decoder recovers `left` from (`left − right`, `right`) -/
 theorem stereo_sideright_inverse (p : Profile) (l r : Int) (hl : fitsS 31 l = true) (hr : fitsS 31 r = true) :
     decSideRight p (l - r) r = .ok l := by
   rw [fitsS31_iff] at hl hr
-  simp only [decSideRight, addS, bind, Except.bind, pure, Except.pure]
-  rw [resS_eq p 32 _ (l - r + r) l (by omega) (by rw [fitsS32_iff]; omega)]
+  have e : l - r + r = l := by omega
+  simp only [decSideRight, bind, Except.bind, pure, Except.pure, e]
+  rw [wrapS32_of_fits l (by rw [fitsS32_iff]; omega)]
 
 /-- mid/side: `((l+r)>>1, l−r)` is undone exactly by `sum = mid*2 + |side| % 2`,
     `(sum ± side) >> 1`, with no trap in the overflow-checked profile and no wrap in release -/
@@ -40,19 +43,19 @@ theorem stereo_midside_inverse (p : Profile) (l r : Int) (hl : fitsS 31 l = true
     rw [resS_eq p 32 _ (l - r) (l - r) rfl (by rw [fitsS32_iff]; omega)]
     simp
   · have habs : 0 ≤ (if l - r < 0 then -(l - r) else l - r) := by split <;> omega
+    have w1 : wrapS 32 ((l + r) / 2 * 2) = (l + r) / 2 * 2 := wrapS32_of_fits _ (by rw [fitsS32_iff]; omega)
+    have w2 : wrapS 32 (if l - r < 0 then -(l - r) else l - r) = (if l - r < 0 then -(l - r) else l - r) :=
+      wrapS32_of_fits _ (by rw [fitsS32_iff]; split <;> omega)
     have hpar : remS (if l - r < 0 then -(l - r) else l - r) 2 = (l + r) % 2 := by
       rw [remS_two_nonneg _ habs]; split <;> omega
-    simp only [midSide32, decMidSum, decMidLeft, decMidRight, mulS, absS, addS, subS, bind, Except.bind, pure, Except.pure]
-    rw [resS_eq p 32 _ ((l + r) / 2 * 2) ((l + r) / 2 * 2) rfl (by rw [fitsS32_iff]; omega)]
-    simp only []
-    rw [resS_eq p 32 _ _ _ rfl (show fitsS 32 (if l - r < 0 then -(l - r) else l - r) = true by rw [fitsS32_iff]; split <;> omega)]
-    simp only [hpar]
-    rw [resS_eq p 32 _ ((l + r) / 2 * 2 + (l + r) % 2) (l + r) (by omega) (by rw [fitsS32_iff]; omega)]
-    simp only []
-    rw [resS_eq p 32 _ (l + r + (l - r)) (2 * l) (by omega) (by rw [fitsS32_iff]; omega)]
-    simp only []
-    rw [resS_eq p 32 _ (l + r - (l - r)) (2 * r) (by omega) (by rw [fitsS32_iff]; omega)]
-    simp only []
+    have e3 : (l + r) / 2 * 2 + (l + r) % 2 = l + r := by omega
+    have w3 : wrapS 32 (l + r) = l + r := wrapS32_of_fits _ (by rw [fitsS32_iff]; omega)
+    have e4 : l + r + (l - r) = 2 * l := by omega
+    have e5 : l + r - (l - r) = 2 * r := by omega
+    have w4 : wrapS 32 (2 * l) = 2 * l := wrapS32_of_fits _ (by rw [fitsS32_iff]; omega)
+    have w5 : wrapS 32 (2 * r) = 2 * r := wrapS32_of_fits _ (by rw [fitsS32_iff]; omega)
+    simp only [midSide32, decMidSum, decMidLeft, decMidRight, bind, Except.bind, pure, Except.pure,
+      w1, w2, hpar, e3, w3, e4, e5, w4, w5]
     have e1 : 2 * l / 2 ^ 1 = l := by omega
     have e2 : 2 * r / 2 ^ 1 = r := by omega
     rw [e1, e2]
@@ -73,26 +76,33 @@ theorem wasted_inverse (p : Profile) (y : Int) (w : Nat) (hw : w < 32) (hx : fit
     (encode.rs:3176 `encode_residuals` vs decode.rs:1736 `predict`) -/
 
 theorem predict_step_restores (p : Profile) (x sum : Int) (shift : Nat) (r : Int) (hs : shift < 64)
-    (hx : fitsS 32 x = true) (h : encResidualStep x sum shift = some r) :
+    (hx : fitsS 32 x = true) (hsum : fitsS 64 sum = true) (h : encResidualStep x sum shift = some r) :
     predictStep p 32 r sum shift = .ok x := by
   simp only [encResidualStep, checkedSubS, Int.toNat_natCast] at h
   split at h
   · simp only [Option.some.injEq] at h
     subst h
-    simp only [predictStep, decPredictStep32, if_true, bind, Except.bind, pure, Except.pure, addS,
-      shrX_ok p 64 _ _ shift hs]
-    -- the code either adds with overflow checks (exact because the sum fits) or wraps (a no-op here)
+    have e : x - castS 32 (sum / 2 ^ shift) + castS 32 (sum / 2 ^ shift) = x := by omega
+    -- the decoder accumulates in i64 (exact here because the sum fits), shifts, truncates, and
+    -- adds either with overflow checks (exact because the result fits) or wrapping (a no-op here)
     first
-      | rw [resS_eq p 32 _ _ x (by omega) hx]
-      | (have e : x - castS 32 (sum / 2 ^ shift) + castS 32 (sum / 2 ^ shift) = x := by omega
-         rw [e, wrapS32_of_fits _ hx])
+      | (simp only [predictStep, decDot, resS_eq p 64 _ sum sum rfl hsum, decPredictStep32, if_true, bind, Except.bind,
+           pure, Except.pure, addS, shrX_ok p 64 _ _ shift hs]
+         rw [resS_eq p 32 _ _ x e hx])
+      | (simp only [predictStep, decDot, wrapS64_of_fits _ hsum, decPredictStep32, if_true, bind, Except.bind,
+           pure, Except.pure, shrX_ok p 64 _ _ shift hs, e, wrapS32_of_fits _ hx])
   · simp at h
+
+/-- every prefix history met while encoding `xs` after `hist` keeps the prediction sum in i64 -/
+def DotFits (coefs : List Int) : List Int → List Int → Prop
+  | _, [] => True
+  | hist, x :: xs => fitsS 64 (dot hist coefs) = true ∧ DotFits coefs (x :: hist) xs
 
 /-- **predict_restore**: for *every* coefficient list and shift (whatever the floating-point LPC
     analysis chose), if the encoder's residual loop succeeds on `xs` after history `hist`, the
     decoder's prediction loop maps those residuals back to exactly `xs`, in both profiles. -/
 theorem predict_restore_go (p : Profile) (coefs : List Int) (shift : Nat) (hs : shift < 64)
-    (xs hist rs : List Int) (hx : ∀ x ∈ xs, fitsS 32 x = true)
+    (xs hist rs : List Int) (hx : ∀ x ∈ xs, fitsS 32 x = true) (hd : DotFits coefs hist xs)
     (h : encResidualsGo coefs shift hist xs = some rs) :
     predictGo p 32 coefs shift hist rs = .ok (hist.reverse ++ xs) := by
   induction xs generalizing hist rs with
@@ -110,17 +120,36 @@ theorem predict_restore_go (p : Profile) (coefs : List Int) (shift : Nat) (hs : 
         simp only [Option.some.injEq] at h
         subst h
         have hx0 : fitsS 32 x = true := hx x (by simp)
-        simp only [predictGo, predict_step_restores p x _ shift r hs hx0 hr]
-        rw [ih (x :: hist) rs' (fun y hy => hx y (by simp [hy])) hrs]
+        simp only [predictGo, predict_step_restores p x _ shift r hs hx0 hd.1 hr]
+        rw [ih (x :: hist) rs' (fun y hy => hx y (by simp [hy])) hd.2 hrs]
         simp
 
+/-- the sum stays in i64 for 32-bit samples, coefficients of at most 16 bits and at most 32 taps —
+    which is everything the format allows (precision ≤ 15 bits, order ≤ 32) -/
+theorem dotFits_of_bounds (coefs : List Int) (hc : ∀ c ∈ coefs, fitsS 16 c = true) (hl : coefs.length ≤ 32)
+    (hist xs : List Int) (hh : ∀ x ∈ hist, fitsS 32 x = true) (hx : ∀ x ∈ xs, fitsS 32 x = true) :
+    DotFits coefs hist xs := by
+  induction xs generalizing hist with
+  | nil => trivial
+  | cons x xs ih =>
+    refine ⟨dot_fits64 hist coefs hh hc hl, ih (x :: hist) ?_ (fun y hy => hx y (by simp [hy]))⟩
+    intro y hy
+    simp only [List.mem_cons] at hy
+    rcases hy with rfl | hy
+    · exact hx y (by simp)
+    · exact hh y hy
+
 theorem predict_restore (p : Profile) (coefs : List Int) (shift : Nat) (hs : shift < 64)
+    (hc : ∀ c ∈ coefs, fitsS 16 c = true) (hl : coefs.length ≤ 32)
     (channel rs : List Int) (hx : ∀ x ∈ channel, fitsS 32 x = true)
     (h : encLpcResiduals coefs shift channel = some rs) :
     predict p 32 coefs shift (channel.take coefs.length) rs = .ok channel := by
   unfold encLpcResiduals at h
   unfold predict
-  rw [predict_restore_go p coefs shift hs _ _ rs (fun x hx' => hx x (List.mem_of_mem_drop hx')) h]
+  have hd : DotFits coefs (channel.take coefs.length).reverse (channel.drop coefs.length) :=
+    dotFits_of_bounds coefs hc hl _ _ (fun x hx' => hx x (List.mem_of_mem_take (by simpa using hx')))
+      (fun x hx' => hx x (List.mem_of_mem_drop hx'))
+  rw [predict_restore_go p coefs shift hs _ _ rs (fun x hx' => hx x (List.mem_of_mem_drop hx')) hd h]
   simp
 
 /-! ### partition layout (encode.rs:3867 `best_partitions` vs decode.rs:1803 `read_block`) -/
